@@ -207,3 +207,31 @@ Proof.
   destruct (valid_bytes_decode_delimited fs1 evs1 grouped Hv Hs Hfirst) as (A & B & C).
   exists later. rewrite A. auto.
 Qed.
+
+(* ---- no read-ahead (C11), from bytes: what the parser yields for the frames delivered so far does
+   not depend on the bytes that follow -- more frames, a fragment, garbage or nothing ---- *)
+Theorem delivered_frames_decide_bytes (fs1 : list frame) (rest : list N) (evs1 : list event) (grouped : bool) :
+  run_frames fs1 = Valid evs1 -> Forall small fs1 ->
+  (match fs1 with g :: _ => (f_rows g = [] /\ f_meta g = []) \/ f_rows g <> [] | [] => True end) ->
+  let r := parse_stream Generic grouped false (write_delimited fs1 ++ rest) in
+  exists tail, flat_events r = evs1 ++ tail /\ (length fs1 <= length (pr_frames r))%nat.
+Proof.
+  intros Hrun Hs Hfirst r. subst r.
+  destruct (valid_has_options _ _ Hrun) as (o & rows & Hrows).
+  assert (Hne : flat_map f_rows fs1 <> []) by (rewrite Hrows; discriminate).
+  assert (Hlong : (3 <= length (write_delimited fs1))%nat) by now apply write_delimited_long.
+  assert (Hhint : hint (firstn 3 (write_delimited fs1 ++ rest)) = true).
+  { rewrite firstn3_app by exact Hlong. now apply (valid_hint fs1 evs1). }
+  pose proof (read_frames_prefix fs1 rest (valid_sendable _ _ Hrun Hs)) as Hread.
+  destruct (read_frames rest) as [fs' e] eqn:Er.
+  destruct (decoder_sound_frames fs1 evs1 true Hrun) as (po & ak & st0 & sk & first & more & Hsk & Ho & Hr & Hd & Hobs).
+  destruct (skip_empty_app fs1 fs' Hne) as (sk' & first' & more' & Hsk1 & Hsk2).
+  rewrite Hsk in Hsk1. inversion Hsk1; subst sk' first' more'.
+  unfold parse_stream, parse_stream_h, get_options_and_frames_h. rewrite Hhint, Hread, Hsk2.
+  cbn [bind]. rewrite Ho. cbn [bind andb]. rewrite Hr, Hd. cbv zeta.
+  destruct (frames_prefix Generic ak po fs1 fs' st0) as (tail & Hdec & _).
+  assert (He : flat_map (fun fr => snd (fst fr)) (decode_frames Generic ak po fs1 st0) = evs1) by exact (f_equal fst Hobs).
+  assert (Hl : last_err (decode_frames Generic ak po fs1 st0) = None) by exact (f_equal snd Hobs).
+  exists (flat_map (fun fr => snd (fst fr)) tail). unfold flat_events. cbn [pr_frames]. rewrite Hdec, flat_map_app.
+  split; [f_equal; exact He|]. rewrite app_length, (decode_frames_complete _ _ _ _ _ Hl). lia.
+Qed.
